@@ -23,7 +23,7 @@ from optimum.quanto.nn import QModuleMixin
 from torch.nn.modules import module as tmod
 from torch.overrides import _get_current_function_mode_stack
 
-MOM = {"m50": 0.5, "m90": 0.9, "m25": 0.25}
+MOM = {"m50": 0.5, "m90": 0.9, "m25": 0.25, "m0": 0.0}
 BATCH = {"b1": 1.0, "b2": 3.0, "b3": 0.25, "bone": None}
 QT = {"qint8": "qint8", "qfloat8": "qfloat8", "qint4": "qint4", "qint2": "qint2", "qfloat8_e5m2": "qfloat8_e5m2", "qfloat8_e4m3fn": "qfloat8_e4m3fn"}
 
